@@ -467,7 +467,7 @@ func init() {
 	reg(&Format{
 		Name: "klv", MinMax: 20, Overheads: []int{0}, MaxUnits: 4, Group: groupBlob,
 		Video: false, MarkerEnd: true, Fragments: true, Stateful: true, FixedPT: -1,
-		MaxFrame: 0, RetainedMx: klvRetainedMax,
+		MaxFrame: 1 * mib, RetainedMx: klvRetainedMax,
 		NewEncoder: func(c Cfg) (encodeFn, error) {
 			e := &rtpklv.Encoder{PayloadType: c.PT, SSRC: &c.SSRC, InitialSequenceNumber: &c.InitSeq, PayloadMaxSize: c.Max}
 			if err := e.Init(); err != nil {
@@ -485,9 +485,9 @@ func init() {
 	})
 }
 
-// klvRetainedMax: KLV documents no maximum unit size; the bound asserted is a
-// fixed 16 MiB (a KLV unit is metadata; anything beyond this is unbounded growth).
-const klvRetainedMax = 16 * mib
+// klvRetainedMax: the decoder limits a unit to 1 MiB; its append-grown buffer may
+// hold up to twice that in capacity.
+const klvRetainedMax = 2 * mib
 
 // ---- M-JPEG image construction and comparison ----
 
